@@ -7,6 +7,7 @@ import (
 	"errors"
 	"fmt"
 	"io"
+	"math"
 	"math/rand"
 	"net"
 	"sync/atomic"
@@ -26,6 +27,9 @@ const (
 var separatorBytes = []byte(" ")
 var heartbeatBytes = []byte("_heartbeat_")
 var okBytes = []byte("OK")
+
+// largest millisecond count that converts to a time.Duration without overflow
+const maxTimeoutMs = uint64(math.MaxInt64 / int64(time.Millisecond))
 
 type protocolV2 struct {
 	nsqd *NSQD
@@ -756,9 +760,13 @@ func (p *protocolV2) REQ(client *clientV2, params [][]byte) ([]byte, error) {
 		return nil, protocol.NewFatalClientErr(err, "E_INVALID",
 			fmt.Sprintf("REQ could not parse timeout %s", params[2]))
 	}
-	timeoutDuration := time.Duration(timeoutMs) * time.Millisecond
-
 	maxReqTimeout := p.nsqd.getOpts().MaxReqTimeout
+	// a millisecond count that would overflow the conversion to nanoseconds
+	// is beyond any max-req-timeout, so it is clamped like every other excess
+	timeoutDuration := time.Duration(math.MaxInt64)
+	if timeoutMs <= maxTimeoutMs {
+		timeoutDuration = time.Duration(timeoutMs) * time.Millisecond
+	}
 	clampedTimeout := timeoutDuration
 
 	if timeoutDuration < 0 {
@@ -920,7 +928,7 @@ func (p *protocolV2) DPUB(client *clientV2, params [][]byte) ([]byte, error) {
 	}
 	timeoutDuration := time.Duration(timeoutMs) * time.Millisecond
 
-	if timeoutDuration < 0 || timeoutDuration > p.nsqd.getOpts().MaxReqTimeout {
+	if timeoutMs > maxTimeoutMs || timeoutDuration < 0 || timeoutDuration > p.nsqd.getOpts().MaxReqTimeout {
 		return nil, protocol.NewFatalClientErr(nil, "E_INVALID",
 			fmt.Sprintf("DPUB timeout %d out of range 0-%d",
 				timeoutMs, p.nsqd.getOpts().MaxReqTimeout/time.Millisecond))
